@@ -101,7 +101,9 @@ func runC06(c *Ctx) {
 	const AC = "blockchain.AggregateCommit"
 	heights := "(*consensus/liskbft.API).GetBFTHeights"
 	nextH := "(*consensus/liskbft.API).NextHeightBFTParameters"
-	commitH := Matcher{"commit.Height", func(t *Term) bool { return t.Op == "field" && t.Sym == "Height" && t.Owner == AC && t.Args[0].String() == "p2" }}
+	commitH := Matcher{"commit.Height", func(t *Term) bool {
+		return t.Op == "field" && t.Sym == "Height" && t.Owner == AC && t.Args[0].String() == "p2"
+	}}
 
 	// ---- R1
 	ff := factsOf(vac)
@@ -150,7 +152,7 @@ func runC06(c *Ctx) {
 		found := false
 		for i, e := range ff.Edges {
 			f := ff.Facts[i]
-			if !f.Entails(CmpSpec{A: commitH, B: IsResult(nextH, 0), Rel: GE, D: 0}) {
+			if !f.IsCmp || !((f.L.Any(commitH.F) && f.R.Any(IsResult(nextH, 0).F)) || (f.R.Any(commitH.F) && f.L.Any(IsResult(nextH, 0).F))) {
 				continue
 			}
 			rej := false
@@ -176,6 +178,9 @@ func runC06(c *Ctx) {
 				}
 			}
 			c.Require("C06.R1 next-parameter-bound", FuncKey(vac)+": height <= next−1 when a next height exists", p.InstrPos(e.If), "the rejecting comparison is evaluated on the paths where NextHeightBFTParameters succeeded", okNil, bad)
+			// the edge that does NOT reject carries height <= next−1 (the block before the change is the last certifiable one)
+			pass := ff.Facts[i^1]
+			c.Require("C06.R1 next-parameter-bound", FuncKey(vac)+": surviving edge bound", p.InstrPos(e.If), "the non-rejecting edge of the comparison carries  commit.Height <= next − 1", pass.Entails(CmpSpec{A: commitH, B: IsResult(nextH, 0), Rel: LE, D: -1}), "surviving edge carries: "+pass.String())
 		}
 		if !found {
 			c.Require("C06.R1 next-parameter-bound", FuncKey(vac)+": height <= next−1 when a next height exists", p.Pos(vac.Pos()), "a rejecting comparison of the commit height with next−1 exists", false, "no such edge")
